@@ -58,6 +58,8 @@ def main(argv):
     instr.install()
     h = base.load_harness(prop)
     budget = h.budget(tier) if hasattr(h, 'budget') else (150 if tier == 'quick' else 1200)
+    if os.environ.get('VERIF_BUDGET_S'):
+        budget = float(os.environ['VERIF_BUDGET_S'])      # smoke runs of the thorough tier
     units = h.units(tier)
     only = os.environ.get('VERIF_UNITS')      # debugging aid: substring filter on the unit JSON
     if only:
